@@ -11,6 +11,7 @@ import (
 
 	"github.com/corazawaf/coraza/v3/internal/corazawaf"
 	"github.com/corazawaf/coraza/v3/internal/seclang"
+	"github.com/corazawaf/coraza/v3/types"
 )
 
 // ExNames are the argument names a transaction can exclude from rule 100 / 300 through
@@ -30,6 +31,8 @@ const Needle = "evil"
 func Directives(auditPath string, variant int) string {
 	var b strings.Builder
 	b.WriteString("SecRuleEngine On\nSecRequestBodyAccess On\n")
+	// WAF-wide settings a transaction copies and a ctl may overwrite for ONE transaction
+	fmt.Fprintf(&b, "SecRequestBodyLimit %d\nSecRequestBodyLimitAction Reject\nSecResponseBodyAccess On\nSecResponseBodyMimeType text/plain\nSecResponseBodyLimit %d\nSecResponseBodyLimitAction ProcessPartial\n", WafReqLimit, WafRespLimit)
 	if auditPath != "" {
 		b.WriteString("SecAuditEngine RelevantOnly\nSecAuditLogRelevantStatus ^403\nSecAuditLogParts ABHZ\nSecAuditLogFormat json\nSecAuditLogType Serial\n")
 		fmt.Fprintf(&b, "SecAuditLog %s\n", auditPath)
@@ -37,6 +40,13 @@ func Directives(auditPath string, variant int) string {
 	for i, n := range ExNames {
 		fmt.Fprintf(&b, "SecRule REQUEST_HEADERS:X-Ex-%s \"@streq 1\" \"id:%d,phase:1,pass,nolog,ctl:ruleRemoveTargetById=100;ARGS:%s,ctl:ruleRemoveTargetById=300;ARGS:%s\"\n", n, 10+i, n, n)
 	}
+	// the family of per-transaction ctl actions, each fired by the request marker X-Ctl-<name>: 1
+	for i, c := range Ctls {
+		fmt.Fprintf(&b, "SecRule REQUEST_HEADERS:X-Ctl-%s \"@streq 1\" \"id:%d,phase:1,pass,nolog,ctl:%s\"\n", c.Name, 30+i, c.Ctl)
+	}
+	// observers whose outcome depends on such a setting
+	b.WriteString(`SecRule REQUEST_BODY "@contains rawevil" "id:510,phase:2,pass,log"` + "\n")
+	b.WriteString(`SecRule RESPONSE_BODY "@contains respevil" "id:500,phase:4,pass,log"` + "\n")
 	// the F27 shape
 	b.WriteString(`SecRule ARGS|!ARGS:x|!ARGS:y|!ARGS:z "@contains evil" "id:100,phase:2,pass,log,msg:'hit %{MATCHED_VAR_NAME}',setvar:tx.hits=+1"` + "\n")
 	// transformation cache + shared regex / pm patterns
@@ -49,6 +59,44 @@ func Directives(auditPath string, variant int) string {
 	fmt.Fprintf(&b, "SecRule ARGS \"@rx variant%d[0-9]+\" \"id:400,phase:2,pass,log,%s\"\n", variant, chains[variant%3])
 	b.WriteString(`SecRule TX:hits "@ge 2" "id:900,phase:2,deny,status:403,log,auditlog,msg:'blocked'"` + "\n")
 	return b.String()
+}
+
+const (
+	WafReqLimit  = 4096
+	WafRespLimit = 2048
+	CtlReqLimit  = 64
+	CtlRespLimit = 32
+)
+
+// CtlSpec is one per-transaction ctl of the family: its marker name, the ctl action, and its effect
+// on the settings vector (index, value; Inc = the setting is a list that grows by one).
+type CtlSpec struct {
+	Name string
+	Ctl  string
+	Idx  int
+	Val  int
+	Inc  bool
+}
+
+// SettingNames gives the order of (*Transaction).VerifC06Settings.
+var SettingNames = []string{"RequestBodyLimit", "ResponseBodyLimit", "RuleEngine", "RequestBodyAccess", "ResponseBodyAccess",
+	"ForceRequestBodyVariable", "ForceResponseBodyVariable", "AuditEngine", "len(AuditLogParts)", "len(ruleRemoveByID)",
+	"len(ruleRemoveByIDRanges)", "len(ruleRemoveTargetByID)", "Skip", "AllowType", "HashEngine", "HashEnforcement", "len(SkipAfter)"}
+
+// Ctls, in RULE order (a later one wins when two write the same setting).
+var Ctls = []CtlSpec{
+	{"reqlimit", fmt.Sprintf("requestBodyLimit=%d", CtlReqLimit), 0, CtlReqLimit, false},
+	{"resplimit", fmt.Sprintf("responseBodyLimit=%d", CtlRespLimit), 1, CtlRespLimit, false},
+	{"engine-det", "ruleEngine=DetectionOnly", 2, int(types.RuleEngineDetectionOnly), false},
+	{"engine-off", "ruleEngine=Off", 2, int(types.RuleEngineOff), false},
+	{"reqbody-off", "requestBodyAccess=Off", 3, 0, false},
+	{"respbody-off", "responseBodyAccess=Off", 4, 0, false},
+	{"force-body", "forceRequestBodyVariable=On", 5, 1, false},
+	{"audit-on", "auditEngine=On", 7, int(types.AuditEngineOn), false},
+	{"audit-off", "auditEngine=Off", 7, int(types.AuditEngineOff), false},
+	{"audit-parts", "auditLogParts=+E", 8, 0, true},
+	{"rm-id", "ruleRemoveById=110", 9, 0, true},
+	{"rm-range", "ruleRemoveById=120-121", 10, 0, true},
 }
 
 // NewWAF builds a WAF from directives.
@@ -66,6 +114,36 @@ type TxCase struct {
 	Get  [][2]string `json:"get"`  // query arguments, in order
 	Post [][2]string `json:"post"` // urlencoded body arguments, in order
 	Ex   []string    `json:"ex"`   // names whose X-Ex-<name> header is sent (any order; duplicates allowed)
+	Ctl  []string    `json:"ctl,omitempty"`  // names of Ctls whose X-Ctl-<name> marker is sent
+	Pad  int         `json:"pad,omitempty"`  // extra body argument pad=<Pad bytes>: body sizes between a ctl limit and the WAF-wide one
+	Raw  string      `json:"raw,omitempty"`  // a body of an unknown content type (REQUEST_BODY only when forced)
+	Resp string      `json:"resp,omitempty"` // text/plain response body
+}
+
+// CtlActs: the ctl writes the markers produce, in rule order, as (index, value, inc).
+func (c TxCase) CtlActs() []CtlSpec {
+	var out []CtlSpec
+	for _, sp := range Ctls {
+		for _, n := range c.Ctl {
+			if n == sp.Name {
+				out = append(out, sp)
+				break
+			}
+		}
+	}
+	return out
+}
+
+// Plain: no marker of the ctl family and no raw body: the outcome of rule 100 is the one modelled by cc_*.
+func (c TxCase) Plain() bool { return len(c.Ctl) == 0 && c.Raw == "" }
+
+// PostAll is the urlencoded body: Post plus the padding argument.
+func (c TxCase) PostAll() [][2]string {
+	p := append([][2]string{}, c.Post...)
+	if c.Pad > 0 {
+		p = append(p, [2]string{"pad", strings.Repeat("p", c.Pad)})
+	}
+	return p
 }
 
 // Ecol is the content of tx.ruleRemoveTargetByID[100] the headers produce: one entry per name in
@@ -85,7 +163,7 @@ func (c TxCase) Ecol() []string {
 
 // Args is ARGS in collection order (ARGS_GET then ARGS_POST).
 func (c TxCase) Args() [][2]string {
-	return append(append([][2]string{}, c.Get...), c.Post...)
+	return append(append([][2]string{}, c.Get...), c.PostAll()...)
 }
 
 // Outcome is everything compared between a transaction inside the concurrent run and the same
@@ -96,6 +174,11 @@ type Outcome struct {
 	Status      int                 `json:"status"`
 	Hits        string              `json:"hits"`
 	Cap         string              `json:"cap"`
+	// the settings vector of the transaction right after NewTransaction and after phase 1 (ctl applied);
+	// not part of String(): compared with the model (CSet)
+	SetStart []int `json:"set_start,omitempty"`
+	SetAfter []int `json:"set_after,omitempty"`
+	WafSet   []int `json:"waf_set,omitempty"`
 }
 
 func (o Outcome) String() string {
@@ -126,13 +209,15 @@ func enc(kv [][2]string) string {
 func RunTx(waf *corazawaf.WAF, id string, c TxCase) (Outcome, error) {
 	tx := waf.NewTransactionWithOptions(corazawaf.Options{ID: id})
 	defer tx.Close()
+	setStart := tx.VerifC06Settings()
 	tx.ProcessConnection("10.0.0.1", 40000, "10.0.0.2", 80)
 	uri := "/p"
 	if len(c.Get) > 0 {
 		uri += "?" + enc(c.Get)
 	}
+	post := c.PostAll()
 	method := "GET"
-	if len(c.Post) > 0 {
+	if len(post) > 0 || c.Raw != "" {
 		method = "POST"
 	}
 	tx.ProcessURI(uri, method, "HTTP/1.1")
@@ -140,13 +225,23 @@ func RunTx(waf *corazawaf.WAF, id string, c TxCase) (Outcome, error) {
 	for _, e := range c.Ex {
 		tx.AddRequestHeader("X-Ex-"+e, "1")
 	}
-	if len(c.Post) > 0 {
+	for _, e := range c.Ctl {
+		tx.AddRequestHeader("X-Ctl-"+e, "1")
+	}
+	var body []byte
+	switch {
+	case c.Raw != "":
+		tx.AddRequestHeader("Content-Type", "text/x-c06")
+		body = []byte(c.Raw)
+	case len(post) > 0:
 		tx.AddRequestHeader("Content-Type", "application/x-www-form-urlencoded")
+		body = []byte(enc(post))
 	}
 	it := tx.ProcessRequestHeaders()
+	setAfter := tx.VerifC06Settings()
 	if it == nil {
-		if len(c.Post) > 0 {
-			if i2, _, err := tx.WriteRequestBody([]byte(enc(c.Post))); err != nil {
+		if len(body) > 0 {
+			if i2, _, err := tx.WriteRequestBody(body); err != nil {
 				return Outcome{}, err
 			} else if i2 != nil {
 				it = i2
@@ -160,8 +255,26 @@ func RunTx(waf *corazawaf.WAF, id string, c TxCase) (Outcome, error) {
 			it = i3
 		}
 	}
+	if it == nil && c.Resp != "" {
+		tx.AddResponseHeader("Content-Type", "text/plain")
+		it = tx.ProcessResponseHeaders(200, "HTTP/1.1")
+		if it == nil && tx.IsResponseBodyProcessable() {
+			if i4, _, err := tx.WriteResponseBody([]byte(c.Resp)); err != nil {
+				return Outcome{}, err
+			} else if i4 != nil {
+				it = i4
+			}
+		}
+		if it == nil {
+			i5, err := tx.ProcessResponseBody()
+			if err != nil {
+				return Outcome{}, err
+			}
+			it = i5
+		}
+	}
 	tx.ProcessLogging()
-	o := Outcome{Matched: map[int][][2]string{}}
+	o := Outcome{Matched: map[int][][2]string{}, SetStart: setStart, SetAfter: setAfter, WafSet: waf.VerifC06Settings()}
 	for _, mr := range tx.MatchedRules() {
 		id := mr.Rule().ID()
 		l := o.Matched[id]
@@ -218,6 +331,26 @@ func GenTx(rng *rand.Rand) TxCase {
 		for i := 0; i < n; i++ {
 			c.Ex = append(c.Ex, ExNames[rng.Intn(len(ExNames))])
 		}
+	}
+	// the per-transaction ctl family: a third of the transactions fire one or two; the others are the
+	// ones whose outcome is SENSITIVE to a setting somebody else changed (bodies between the ctl value
+	// and the WAF-wide limit, response bodies with the needle beyond the ctl limit, raw bodies)
+	if rng.Intn(3) == 0 {
+		n := 1 + rng.Intn(2)
+		for i := 0; i < n; i++ {
+			c.Ctl = append(c.Ctl, Ctls[rng.Intn(len(Ctls))].Name)
+		}
+	}
+	switch rng.Intn(6) {
+	case 0, 1:
+		c.Pad = CtlReqLimit + 1 + rng.Intn(400)
+	case 2:
+		if len(c.Post) == 0 {
+			c.Raw = "raw body with rawevil inside " + strings.Repeat("r", rng.Intn(150))
+		}
+	}
+	if rng.Intn(2) == 0 {
+		c.Resp = strings.Repeat("a", rng.Intn(3*CtlRespLimit)) + " respevil tail"
 	}
 	if c.Ex == nil {
 		c.Ex = []string{}
